@@ -966,8 +966,15 @@ func c07r7(c *Ctx, r *Report) {
 	// never have been opened by a writer, and waiting for the relay would block for ever.)
 	isRet := func(in ssa.Instruction) bool {
 		ret, ok := in.(*ssa.Return)
-		return ok && len(ret.Results) == 2 && isConstInt(ret.Results[0], 0)
+		return ok && len(ret.Results) == 2 && isConstInt(retResult(ret, 0), 0)
 	}
+	nOK := 0
+	eachInstr(rp, func(in ssa.Instruction) {
+		if isRet(in) {
+			nOK++
+		}
+	})
+	r.floor("returns of ExitOk in runProxy", nOK, 1)
 	esc := pathAvoiding(run, isRet, isJoin, nil)
 	where := ""
 	if esc != nil {
